@@ -8,7 +8,7 @@ open Huginn.Drv Huginn.Tls
 /-- The concrete parser the driver plugs into the reader model (the theorems hold for any). -/
 def parse (b : Bytes) : PR Signature := parseClientHello knownBodyOk b
 
-def ja4Of (s : Signature) : String := (generateJa4 Huginn.Sha256.sha256 s false).full
+def ja4Of (s : Signature) : String := String.ofList (generateJa4 Huginn.Sha256.sha256 s false).full
 
 def showOut : Out Signature → String
   | .none => "-"
